@@ -34,7 +34,7 @@ func c13Alphabet(k model.Kind, reduced bool) []model.Cell {
 		if reduced {
 			return []model.Cell{model.F(math.Copysign(0, -1)), model.NaN()}
 		}
-		return []model.Cell{model.F(0), model.F(math.Copysign(0, -1)), model.F(1.5), model.F(5e-324), model.F(math.MaxFloat64), model.F(1e21), model.F(0.1),
+		return []model.Cell{model.F(0), model.F(math.Copysign(0, -1)), model.F(1.5), model.F(5e-324), model.F(math.MaxFloat64), model.F(1e21), model.F(0.1), model.F(9223372036854775808), model.F(-9.5e18), model.F(9007199254740993),
 			model.F(math.Inf(1)), model.F(math.Inf(-1)), model.NaN()}
 	case model.Bool:
 		return []model.Cell{model.B(false), model.B(true)}
@@ -271,7 +271,7 @@ func init() {
 		ID:    "C13",
 		Level: "model_checking",
 		Rule: "case = (frame, index shape, Header option, Columns order, EmptyNull). Family A: one column of each type (optionally next to an id column), ALL cell sequences of length <= 3 over the per-type alphabets " +
-			"(strings: null, \"\", blanks, quotes, delimiter, LF, invalid UTF-8, \\., \"1\", \"true\"; floats: +-0, subnormal, max, 1e21, 0.1, +-Inf, NaN; ints: extremes; enums with declared order) x 7 shapes x Header x EmptyNull; " +
+			"(strings: null, \"\", blanks, quotes, delimiter, LF, invalid UTF-8, \\., \"1\", \"true\"; floats: +-0, subnormal, max, 1e21, 0.1, 2^63, -9.5e18, 2^53+2, +-Inf, NaN; ints: extremes; enums with declared order) x 7 shapes x Header x EmptyNull; " +
 			"family B: every type combination of three columns over reduced alphabets x every Columns permutation x Header x EmptyNull. Oracles: the written bytes parsed by the reference RFC 4180 parser give header + one record per row with the expected cell texts; ReadCSV(bytes, Types/EnumValues/Headers) equals the frame (floats bit-identical, NaN preserved, null -> \"\" or \"\" -> null). All cases are non-trivial; distinct by content.",
 		Assumptions: []string{
 			"strings contain no CR (outside the property)",
